@@ -640,18 +640,9 @@ fn oracle(model: &mut Model, ctx: &Ctx, real: &Answers, expr: &str, all_envs: bo
     None
 }
 
-fn finding_for_tags(tags: &[String], why: &str) -> Option<&'static str> {
-    let has = |t: &str| tags.iter().any(|x| x == t);
-    if why.contains("side-effect free") {
-        // a wrongly folded `..` decides a comparison, hence a branch, hence what is declared pure
-        if has("numfmt") {
-            return Some("F3");
-        }
-        return None;
-    }
-    if has("numfmt") {
-        return Some("F3");
-    }
+/// Which listed finding explains an oracle failure outside H8? None any more: F1–F4 are fixed, and the
+/// remaining condition of H8 (`refeq`) never makes the execution oracle fail.
+fn finding_for_tags(_tags: &[String], _why: &str) -> Option<&'static str> {
     None
 }
 
@@ -915,11 +906,6 @@ fn end_to_end(model: &mut Model, ctx: &Ctx, r: &mut Report, wire: &str, rule: &d
             r.count("e2e_f5_samples", 1);
             r.notes.push(format!("F5 (C01) seen end-to-end: return {} -> {} / {}", wire, o0, o1));
         }
-        return;
-    }
-    let h = model.ask(&format!("c08.h {}", wire));
-    if !h.starts_with("(true") {
-        r.hist("e2e", "differs-outside-H8(F1-F4)");
         return;
     }
     if has_f5_shape(wire) {
